@@ -271,12 +271,84 @@ def handle_histories(ctx, tmp):
                               "(Handle-threading workflow)", case=case, expected=">= 1 task executed", actual=(strr, rcalls), kind="history")
 
 
+def file_histories(ctx, tmp):
+    """oracle only (the scheduler-core model has no external values): cached results that are Files.  After the real run the file
+    is deleted / rewritten / left alone; the dry run must make the same validity decision as the real run (it completes iff the
+    real run executes nothing)."""
+    from redun import File, task
+    from redun.scheduler import DryRunResult
+    ctl_sched.quiet()
+    calls = []
+    path = os.path.join(tmp, "c28-data.txt")
+
+    @task(namespace="c28f", name="make_file", version="1")
+    def make_file(p, text):
+        calls.append("make_file")
+        f = File(p)
+        f.write(text)
+        return f
+
+    @task(namespace="c28f", name="read_file", version="1")
+    def read_file(f):
+        calls.append("read_file")
+        return f.read()
+
+    @task(namespace="c28f", name="main", version="1")
+    def main(p, shape):
+        f = make_file(p, "hello")
+        return read_file(f) if shape == "chain" else [f, read_file(f)]
+
+    def one(db, shape, dryrun):
+        del calls[:]
+        sched = ctl_sched.make_scheduler(None, db_uri="sqlite:///" + db)
+        try:
+            out = ("ok", repr(sched.run(main(path, shape), dryrun=dryrun))[:80])
+        except DryRunResult:
+            out = ("dryrun", None)
+        except Exception as e:  # noqa: BLE001
+            out = ("err", type(e).__name__ + ": " + str(e)[:120])
+        sched.backend.session.close()
+        return out, list(calls)
+
+    for shape in ("chain", "list"):
+        for change in ("none", "delete", "rewrite", "touch-same"):
+            db = os.path.join(tmp, "f-%s-%s.db" % (shape, change))
+            if os.path.exists(path):
+                os.remove(path)
+            one(db, shape, False)
+            if change == "delete":
+                os.remove(path)
+            elif change == "rewrite":
+                open(path, "w").write("other text")
+            elif change == "touch-same":
+                st = os.stat(path)
+                open(path, "w").write("hello")
+                os.utime(path, (st.st_atime, st.st_mtime))
+            shutil.copy(db, db + ".dry")
+            shutil.copy(db, db + ".real")
+            (std, vd), dcalls = one(db + ".dry", shape, True)
+            state = open(path).read() if os.path.exists(path) else None
+            (strr, vr), rcalls = one(db + ".real", shape, False)
+            case = {"shape": shape, "external_change": change, "file_before_real_run": state, "dry": std, "real": strr, "real_calls": rcalls}
+            ctx.case(key=("files", shape, change), sample=case, history="files-" + change, dry=std, real=strr)
+            if dcalls or (change != "none" and state is not None and os.path.exists(path) and False):
+                ctx.violation("C28-dryrun-submits", "a dry run called a task function", case=case, expected=[], actual=dcalls, kind="history")
+            if std == "ok" and (strr != "ok" or vr != vd or rcalls):
+                ctx.violation("C28-complete-dryrun-but-real-run-executes", "dry run completed but the real run executed tasks or returned "
+                              "something else (cached File result no longer valid)", case=case, expected=(std, vd), actual=(strr, vr, rcalls),
+                              kind="history")
+            if std == "dryrun" and not rcalls:
+                ctx.violation("C28-dryrun-stops-but-nothing-to-run", "dry run reported additional jobs but the real run executed no task "
+                              "(File-valued results)", case=case, expected=">= 1 task executed", actual=(strr, rcalls), kind="history")
+
+
 def run(ctx):
     rng = ctx.rng
     items = []
     tmp = tempfile.mkdtemp(prefix="verif-c28-")
     try:
         handle_histories(ctx, tmp)
+        file_histories(ctx, tmp)
         kinds = ["empty", "rerun", "rerun", "edit", "edit"]
         for i in range(ctx.n(30, 500)):
             p = sc.gen_program(rng, p_fail=0.12, p_limits=0.3, allow_badexec=(i % 5 == 0))
